@@ -137,14 +137,66 @@ Section C03.
     (forall u e', set_unsigned u e = Some e' -> event_id e' = event_id e) /\
     (forall k v, event_id (set_unsigned_field k v e) = event_id e) /\
     (forall name keyid e', sign sgn name keyid e = Some e' -> event_id e' = event_id e) /\
-    (forall e', e_class e <> 1 -> cache_sound H e -> redact_ev e = Some e' ->
-                e_idraw e' = [] \/ e_redacted e = true -> event_id e' = event_id e).
+    (forall e', e_class e <> 1 -> cache_sound H e -> redact_ev e = Some e' -> event_id e' = event_id e).
   Proof.
     intro e. split; [|split; [|split]].
     - intros u e'. apply event_id_set_unsigned_opt.
     - intros k v. apply event_id_set_unsigned_field.
     - intros name keyid e'. apply event_id_sign.
     - intros e'. apply event_id_redact.
+  Qed.
+
+  (* F65: in the hash-derived formats no parser and no Redact() takes an ID from the JSON, whatever
+     its members are called: an event accepted as untrusted input (intact or through the
+     hash-failure path), parsed as trusted input without a supplied ID, or rebuilt by Redact()
+     has an empty EventIDRaw, so EventID() is the reference ID of its JSON -- a function of the
+     redacted event (event_id_ignores_redaction) *)
+  Theorem accepted_event_id_is_reference_id : forall ver j e ok,
+    known_version ver = true -> class_trusted ver <> 1 ->
+    parse_untrusted H ver j = POk e ok ->
+    e_idraw e = [] /\
+    event_id e = match reference_id H (e_ver e) (e_json e) with Some i => i | None => PANIC end.
+  Proof.
+    intros ver j e ok Hk Hc Hp.
+    destruct (shape_facts ver Hk) as (Hun & _).
+    assert (Hraw : e_idraw e = []).
+    { unfold parse_untrusted in Hp. rewrite Hun in Hp.
+      assert (Hm : forall j' r, e_idraw (mk_parsed ver (class_trusted ver) j' r None) = []).
+      { intros. unfold mk_parsed, json_event_id. simpl. apply N.eqb_neq in Hc. rewrite Hc. reflexivity. }
+      destruct ((class_trusted ver =? 0) || has_underscore_key j || negb (canonical_check_ok ver j)); [discriminate|].
+      match type of Hp with context [decodes _ ?J1] => set (j1 := J1) in * end.
+      destruct (negb (decodes (class_trusted ver) j1) || negb (room_check (class_trusted ver) j1) || negb (redactable ver j1)); [discriminate|].
+      destruct (content_hash_ok H j1).
+      - inversion Hp. apply Hm.
+      - destruct (redact ver j1) as [r|]; [|discriminate].
+        destruct (bytes_eqb (canon_print r) (canon_print j1)).
+        + inversion Hp. apply Hm.
+        + destruct (parse_trusted ver r true) as [e0|] eqn:Et; [|discriminate]. inversion Hp; subst e0.
+          exact (parsed_event_has_no_json_id (class_trusted ver) ver r true e Hc Et). }
+    split; [exact Hraw|]. unfold ModelC03.event_id. rewrite Hraw.
+    destruct (e_class e =? 1) eqn:E1; [|reflexivity].
+    (* class 1 cannot come out of a parser of another class: the ID is then EventIDRaw = [] as well *)
+    exfalso. apply N.eqb_eq in E1.
+    unfold parse_untrusted in Hp. rewrite Hun in Hp.
+    destruct ((class_trusted ver =? 0) || has_underscore_key j || negb (canonical_check_ok ver j)); [discriminate|].
+    match type of Hp with context [decodes _ ?J1] => set (j1 := J1) in * end.
+    destruct (negb (decodes (class_trusted ver) j1) || negb (room_check (class_trusted ver) j1) || negb (redactable ver j1)); [discriminate|].
+    destruct (content_hash_ok H j1).
+    - inversion Hp; subst e. simpl in E1. contradiction.
+    - destruct (redact ver j1) as [r|]; [|discriminate].
+      destruct (bytes_eqb (canon_print r) (canon_print j1)).
+      + inversion Hp; subst e. simpl in E1. contradiction.
+      + destruct (parse_trusted ver r true) as [e0|] eqn:Et; [|discriminate]. inversion Hp; subst e0.
+        destruct (parse_trusted_as_inv _ _ _ _ _ _ Et) as (_ & _ & _ & Ee). subst e. simpl in E1. contradiction.
+  Qed.
+
+  Theorem trusted_and_redacted_events_have_no_json_id :
+    (forall ver j red e, class_trusted ver <> 1 -> parse_trusted ver j red = Some e -> e_idraw e = []) /\
+    (forall e e', e_class e <> 1 -> e_redacted e = false -> redact_ev e = Some e' -> e_idraw e' = []).
+  Proof.
+    split.
+    - intros ver j red e Hc Hp. exact (parsed_event_has_no_json_id (class_trusted ver) ver j red e Hc Hp).
+    - exact redacted_event_has_no_json_id.
   Qed.
 
   (* the lazily cached EventIDRaw is invisible *)
@@ -359,6 +411,8 @@ Print Assumptions event_id_ignores_signatures.
 Print Assumptions event_id_ignores_added_signature.
 Print Assumptions event_id_ignores_redaction.
 Print Assumptions event_id_after_edits.
+Print Assumptions accepted_event_id_is_reference_id.
+Print Assumptions trusted_and_redacted_events_have_no_json_id.
 Print Assumptions cache_is_transparent.
 Print Assumptions event_id_alphabet.
 Print Assumptions v12_create_room_id.
